@@ -66,6 +66,9 @@ type rewriter struct {
 	rangeK   map[*ast.RangeStmt]string // "map" | "chan"
 	mapIdx   map[*ast.IndexExpr]bool   // index into instrumented map
 	errs     []string
+	// sharedLoopVars: the module's language version is below go1.22, so the variables of a
+	// range statement are shared by all iterations (closures capturing them see the last value)
+	sharedLoopVars bool
 }
 
 func (r *rewriter) site(n ast.Node) *ast.BasicLit {
@@ -546,7 +549,23 @@ func (r *rewriter) rewriteMapRange(n *ast.RangeStmt) ast.Stmt {
 	}
 	loop := &ast.RangeStmt{Key: ast.NewIdent("_"), Value: k, Tok: token.DEFINE, X: call(vrtSel("MapOrder"), m, r.site(n)),
 		Body: &ast.BlockStmt{List: append(head, n.Body.List...)}}
-	return &ast.BlockStmt{List: []ast.Stmt{define(m, x), loop}}
+	pre := []ast.Stmt{define(m, x)}
+	if n.Tok == token.DEFINE && r.sharedLoopVars {
+		// go < 1.22: one variable for the whole loop, declared outside and assigned per iteration
+		for i, st := range head {
+			as, ok := st.(*ast.AssignStmt)
+			if !ok || as.Tok != token.DEFINE || i < 3 {
+				continue
+			}
+			as.Tok = token.ASSIGN
+			zero := "ZeroVal"
+			if as.Lhs[0] == n.Key {
+				zero = "ZeroKey"
+			}
+			pre = append(pre, define(as.Lhs[0], call(vrtSel(zero), m)), assign(ast.NewIdent("_"), as.Lhs[0]))
+		}
+	}
+	return &ast.BlockStmt{List: append(pre, loop)}
 }
 
 func (r *rewriter) rewriteChanRange(n *ast.RangeStmt) ast.Stmt {
@@ -605,7 +624,7 @@ func main() {
 	}
 	if *conc {
 		cfg := &packages.Config{
-			Mode: packages.NeedName | packages.NeedFiles | packages.NeedCompiledGoFiles | packages.NeedSyntax | packages.NeedTypes | packages.NeedTypesInfo | packages.NeedImports | packages.NeedDeps,
+			Mode: packages.NeedName | packages.NeedFiles | packages.NeedCompiledGoFiles | packages.NeedSyntax | packages.NeedTypes | packages.NeedTypesInfo | packages.NeedImports | packages.NeedDeps | packages.NeedModule,
 			Dir:  *repo,
 			Env:  append(os.Environ(), "GOFLAGS=-mod=mod", "GOPROXY=off", "GOSUMDB=off", "GOTOOLCHAIN=local"),
 		}
@@ -623,6 +642,12 @@ func main() {
 			}
 			os.Exit(3)
 		}
+		shared := false
+		if pkg.Module != nil && pkg.Module.GoVersion != "" {
+			var maj, min int
+			fmt.Sscanf(pkg.Module.GoVersion, "%d.%d", &maj, &min)
+			shared = maj == 1 && min < 22
+		}
 		nsel, nchan := 0, 0
 		for i, f := range pkg.Syntax {
 			name := pkg.CompiledGoFiles[i]
@@ -630,7 +655,7 @@ func main() {
 			if err != nil {
 				fatalf(3, "ENGINE-ERROR %v", err)
 			}
-			r := &rewriter{fset: pkg.Fset, info: pkg.TypesInfo, pkg: pkg.Types, file: name, race: *race,
+			r := &rewriter{fset: pkg.Fset, info: pkg.TypesInfo, pkg: pkg.Types, file: name, race: *race, sharedLoopVars: shared,
 				skipComm: map[ast.Node]bool{}, mode: map[ast.Expr]accessMode{}, wrap: map[ast.Expr]bool{}, siteOf: map[ast.Node]*ast.BasicLit{},
 				isClose: map[*ast.CallExpr]bool{}, makeElem: map[*ast.CallExpr]ast.Expr{}, delMap: map[*ast.CallExpr]bool{},
 				lenMap: map[*ast.CallExpr]bool{}, rangeK: map[*ast.RangeStmt]string{}, mapIdx: map[*ast.IndexExpr]bool{}}
